@@ -26,7 +26,7 @@ import zipfile
 from corr.harness import coq_build, run_model, exc_name, REPO
 
 TB = [
-    "CPython 3.12 str.isdigit / int(str) are re-implemented in model/Ids.v (tables decimal_zeros, digit_only_ranges, "
+    "CPython 3.12 str.isdecimal / str.isdigit / int(str) are re-implemented in model/Ids.v (tables decimal_zeros, digit_only_ranges, "
     "uni_space_ranges transcribed from unicodedata 15.0; compared exhaustively over all code points by this check)",
     "sorted, max, dict (insertion-ordered, unique keys), %d formatting, str.find/startswith are transcribed, tied by this correspondence",
     "lxml xpath //@id, //@r:id and ./p:sldId/@id are taken as the population (document order); PackUri.idx of model/PackUri.v is reused for partname.idx",
@@ -107,7 +107,7 @@ def numeric_reading(s):
 # ----------------------------------------------------------------------------- int / tables
 def impl_int(case):
     s = case["s"]
-    return ("True" if s.isdigit() else "False") + "|" + res_of(lambda: int(s))
+    return ("True" if s.isdigit() else "False") + "|" + ("True" if s.isdecimal() else "False") + "|" + res_of(lambda: int(s))
 
 
 def python_tables():
@@ -137,6 +137,20 @@ def python_tables():
         for z in zeros for c in range(z, z + 10)
     ) and sum(1 for c in range(0x110000) if chr(c).isdecimal()) == 10 * len(zeros)
     return "|".join(" ".join(str(x) for x in l) for l in (zeros, ranges(dig), ranges(sp))), ok
+
+
+def isdecimal_not_int():
+    """code points that pass str.isdecimal() (the filter of the //@id scans) but that int() refuses"""
+    bad = []
+    for c in range(0x110000):
+        ch = chr(c)
+        if ch.isdecimal():
+            try:
+                if int(ch) != unicodedata.decimal(ch) or int("1" + ch + "0") != 100 + 10 * unicodedata.decimal(ch):
+                    bad.append(c)
+            except ValueError:
+                bad.append(c)
+    return bad
 
 
 # ----------------------------------------------------------------------------- shapes
@@ -177,7 +191,7 @@ def id_snapshot(root):
     return [(e, e.get("id")) for e in root.xpath("//*[@id]")]
 
 
-def shape_oracle(viol, case, before, root, new_elm, what):
+def shape_oracle(viol, case, before, root, new_elm, what, turbo=False):
     """property statement on one successful addition"""
     after = {id(e): v for e, v in id_snapshot(root)}
     for e, v in before:
@@ -192,7 +206,7 @@ def shape_oracle(viol, case, before, root, new_elm, what):
     n = int(new)
     for e, v in before:
         if v == new or numeric_reading(v) == n:
-            turbo = any(o[0] == "t" for o in case["ops"])
+            # turbo: some live proxy of this slide has turbo_add_enabled on at this moment
             sig = "turbo-duplicate-shape-id" if turbo else "duplicate-shape-id"
             viol.append((sig, "%s assigned shape id %d which is already used in the part (existing @id %r on <%s>)" % (
                 what, n, v, e.tag.split("}")[-1]), case))
@@ -245,13 +259,14 @@ def impl_shp(env, case, viol):
     outs = []
     for op in case["ops"]:
         before = id_snapshot(root)
+        turbo = any(p.turbo_add_enabled for p in proxies)
         try:
             if op[0] == "m":
                 proxy = proxies[op[1]]
                 shp = add_kind(env, proxy, op[2], op[3])
                 objs.append(shp)
                 outs.append("ok:%d" % shp.shape_id)
-                shape_oracle(viol, case, before, root, shp._element, "add_%s" % op[2])
+                shape_oracle(viol, case, before, root, shp._element, "add_%s" % op[2], turbo)
             elif op[0] == "g":
                 proxy = proxies[op[1]]
                 if op[2] == "group":
@@ -261,7 +276,7 @@ def impl_shp(env, case, viol):
                     shp = add_kind(env, proxy, "freeform", 0)
                 objs.append(shp)
                 outs.append("ok:%d" % shp.shape_id)
-                shape_oracle(viol, case, before, root, shp._element, "add_group_shape" if op[2] == "group" else "freeform")
+                shape_oracle(viol, case, before, root, shp._element, "add_group_shape" if op[2] == "group" else "freeform", turbo)
             elif op[0] == "n":
                 if op[1] == "grp" and pending_groups:
                     proxies.append(pending_groups.pop(0).shapes)
@@ -301,7 +316,7 @@ def crash_oracle(viol, case, before, e, op):
     nondec = [v for v in vals if v.isdigit() and numeric_reading(v) is None]
     if nondec:
         viol.append(("shape-id-isdigit-not-int", "adding a shape (%s) raises %s: %s -- an existing @id %r passes str.isdigit() but int() rejects it "
-                     "(max_shape_id / _next_shape_id filter with isdigit then call int)" % (op[2], type(e).__name__, e, nondec[0]), case))
+                     "(the //@id scans must not let such a value reach int)" % (op[2], type(e).__name__, e, nondec[0]), case))
     else:
         viol.append(("add-shape-raises", "adding a shape (%s) raises %s: %s on @id population %r" % (op[2], type(e).__name__, e, vals[:12]), case))
 
@@ -413,6 +428,60 @@ def impl_ctn(env, case):
         c = etree.SubElement(par, "{%s}cTn" % P)
         c.set("id", s)
     return res_of(lambda: child._next_cTn_id)
+
+
+# ----------------------------------------------------------------------------- placeholder names
+PH_TYPES = ["BODY", "TITLE", "TABLE", "PICTURE", "OBJECT", "DATE", "CENTER_TITLE"]
+
+
+def impl_phn(env, case, viol):
+    from pptx.enum.shapes import PP_PLACEHOLDER
+
+    prs = env.prs()
+    slide = prs.slides.add_slide(prs.slide_layouts[6])
+    shapes = slide.shapes
+    for _ in case["names"][1:]:
+        shapes.add_textbox(0, 0, 10, 10)
+    cn = slide._element.xpath("//p:cNvPr")
+    for e, nm in zip(cn, case["names"]):
+        e.set("name", nm)
+    ph_type = getattr(PP_PLACEHOLDER, case["ph"])
+    orient = "vert" if case["vert"] else "horz"
+    try:
+        r = shapes._next_ph_name(ph_type, case["id"], orient)
+    except Exception as e:  # noqa
+        return "err:" + exc_name(e)
+    if r in case["names"]:
+        viol.append(("ph-name-duplicate", "_next_ph_name returned %r which is already a shape name of the slide" % r, case))
+    return show(r)
+
+
+def ph_base(case):
+    from pptx.enum.shapes import PP_PLACEHOLDER
+    from pptx.shapes.shapetree import SlideShapes
+
+    b = SlideShapes.ph_basename(None, getattr(PP_PLACEHOLDER, case["ph"]))
+    return ("Vertical " + b) if case["vert"] else b
+
+
+def gen_phn(rng):
+    ph = rng.choice(PH_TYPES)
+    vert = rng.random() < 0.25
+    case = {"op": "phn", "ph": ph, "vert": vert, "id": rng.randint(1, 6), "names": []}
+    base = ph_base(case)
+    names = [""]
+    for _ in range(rng.randint(0, 7)):
+        r = rng.random()
+        if r < 0.7:
+            names.append("%s %d" % (base, rng.randint(0, 7)))
+        elif r < 0.8:
+            names.append("%s 0%d" % (base, rng.randint(0, 7)))
+        elif r < 0.9:
+            names.append("%s  %d" % (base.lower(), rng.randint(0, 7)))
+        else:
+            names.append("TextBox %d" % rng.randint(1, 9))
+    case["names"] = names
+    return case
 
 
 # ----------------------------------------------------------------------------- slide ids
@@ -717,9 +786,17 @@ def impl_ren(case, viol):
             if len(set(case["names"])) == len(case["names"]):
                 if len(set(after)) != len(after):
                     dup = sorted(n for n in set(after) if after.count(n) > 1)
-                    viol.append(("unlisted-slide-partname-collision",
+                    # the known class: one of the two parts is a slide part related to the presentation
+                    # but missing from p:sldIdLst; any other duplicate keeps its own signature
+                    unl = [i for i, n in enumerate(after) if n == dup[0] and i not in listed]
+                    if not unl:
+                        viol.append(("partname-duplicate-rename", "after prs.slides two LISTED slide parts are both named %s" % dup[0], case))
+                    else:
+                        viol.append(("unlisted-slide-partname-collision",
                                  "after prs.slides (rename_slide_parts) two reachable parts are both named %s: a slide part related to the "
-                                 "presentation but absent from p:sldIdLst keeps its name while a listed slide is renamed onto it" % dup[0], case))
+                                     "presentation but absent from p:sldIdLst keeps its name while a listed slide is renamed onto it" % dup[0], case))
+                elif nxt in after and after.index(nxt) in listed:
+                    viol.append(("partname-duplicate-rename", "_next_slide_partname = %s is the name of a listed slide" % nxt, case))
                 elif nxt in after:
                     viol.append(("unlisted-slide-partname-collision",
                                  "_next_slide_partname = %s is already the name of a reachable part that p:sldIdLst does not list "
@@ -917,7 +994,8 @@ def run_history(env, hseed, nops, viol, stats):
 
 
 ALLOC_FUNCS = {"_next_shape_id", "max_shape_id", "_next_id", "add_sldId", "_next_rId", "next_partname", "next_image_partname",
-               "next_media_partname", "rename_slide_parts", "_next_slide_partname", "_next_cTn_id", "_next_ph_name", "drop_rel"}
+               "next_media_partname", "rename_slide_parts", "_next_slide_partname", "_next_cTn_id", "_next_ph_name", "drop_rel",
+               "add_grpSp", "add_freeform_sp"}
 _CORPUS = None
 
 
@@ -1045,6 +1123,8 @@ def to_model(case, tnames):
         return model_rid(case)
     if op in ("pn", "img", "med"):
         return model_names(case, tnames + case["names"])
+    if op == "phn":
+        return ["phn", ph_base(case), case["id"] - 1] + case["names"]
     raise AssertionError(op)
 
 
@@ -1062,6 +1142,8 @@ def run_impl(env, case, viol):
         return impl_rid(env, case, viol)
     if op in ("pn", "img", "med"):
         return impl_names(case, viol)
+    if op == "phn":
+        return impl_phn(env, case, viol)
     raise AssertionError(op)
 
 
@@ -1101,6 +1183,8 @@ def nontrivial(case):
         return len(case["listed"]) >= 1
     if op == "ctn":
         return len(case["ids"]) >= 1
+    if op == "phn":
+        return len(case["names"]) >= 2
     return True
 
 
@@ -1123,6 +1207,8 @@ def gen_cases(tier, rng):
     for _ in range(1000 if q else 6000):
         ids = [rng.choice(["1", "2", "3", "7", "x", "", "²", "٣", " 4", "4294967296", "-2", "1_0"]) for _ in range(rng.randint(0, 5))]
         cases.append({"op": "ctn", "ids": ids})
+    for _ in range(800 if q else 5000):
+        cases.append(gen_phn(rng))
     for klass, n in (("valid", 1500 if q else 9000), ("odd", 1000 if q else 6000)):
         for _ in range(n):
             cases.append(gen_sld(rng, klass))
@@ -1162,6 +1248,12 @@ def run(ck, tier, rng):
         tab_impl, tab_ok = python_tables()
         if not tab_ok:
             ck.notes.append("decimal characters are not all in aligned blocks of ten in this Python's unicodedata")
+        bad = isdecimal_not_int()
+        if bad:
+            viol.append(("isdecimal-int-mismatch", "code points %r pass str.isdecimal() but int() refuses them: an @id made of one makes "
+                         "the //@id scan raise" % [hex(c) for c in bad[:8]], {"op": "shp", "klass": "odd", "sids": ["1", chr(bad[0])],
+                                                                             "oids": [], "nconn": 0, "ops": [("m", 0, "textbox", 0)]}))
+        ck.dist["isdecimal-code-points-int-accepts"] = sum(1 for c in range(0x110000) if chr(c).isdecimal()) - len(bad)
         cases.append({"op": "tab"})
         impl_out.append(tab_impl)
         model_in.append(["tab"])
@@ -1223,6 +1315,7 @@ def entry_point(rec):
         "rid": "Part.relate_to / XmlPart.drop_rel (_Relationships._next_rId)",
         "pn": "OpcPackage.next_partname", "img": "Package.next_image_partname", "med": "Package.next_media_partname",
         "ren": "Presentation.slides (PresentationPart.rename_slide_parts, _next_slide_partname)",
+        "phn": "_BaseShapes._next_ph_name",
         "history": "public API history",
     }.get(op, str(op))
 
@@ -1264,3 +1357,21 @@ def replay(rec):
         return 0 if (io_ == mo and not viol) else 1
     finally:
         env.close()
+
+
+CLAIM = {
+    "tech": "Coq proof over a Gallina model of every id / part-name allocator as a function of the population it scans, and of the slide and "
+            "relationship collections as state machines over operation histories (fold over op lists) + extracted-model correspondence on real "
+            "parts with injected populations + independent oracle on public-API histories and the saved zip",
+    "text": "33 theorems closed under the global context: next_rId / next_partname / image / media / placeholder-name results are fresh for every "
+            "population (pigeonhole over the injective decimal rendering; the 'impossible' raises are unreachable); max+1 and first-gap shape ids are "
+            "positive and fresh for any multiset of @id strings (str.isdecimal filter and int() modelled on code points, tables compared over all "
+            "0x110000 code points); distinct shape ids stay distinct and no existing id is rewritten under any turbo-free history; slide ids stay in "
+            "256..2147483647, fresh, existing ones untouched, with the exact StopIteration condition; rename_slide_parts gives slide1..n in order with "
+            "the exact collision condition. Two refuted statements carry their witnesses (turbo cache vs first-gap allocator; slide part missing from "
+            "p:sldIdLst) and are re-found on the real code. ~75k (quick) / ~490k (thorough) allocator cases and 150 / 1500 API histories, 0 diffs.",
+    "note": "slide-like parts are abstracted to their @id value lists and per-proxy turbo caches, relationship collections to (rId, target) pairs plus "
+            "r:id references; add_movie timing rewriting is outside the state machine; numeric identity of an id is what str.isdecimal + int read "
+            "(values such as ' 7' or '+7' are ignored by the scan exactly as in the code); int() refuses more than 4300 digits and the theorems say so.",
+    "ref": "6/C06",
+}
